@@ -7,11 +7,17 @@ use crate::ug::build::*;
 use serde_json::{Value, json};
 
 pub const CAPTURES: [&str; 10] = ["none", "param", "let", "patvar", "ref", "closure", "topfn", "string-let", "fn-param", "fn-alias"];
-pub const FLOWS: [&str; 22] = [
+pub const FLOWS: [&str; 27] = [
     "nested-tuple", "tuple-of-holder-var", "tuple-of-call-result", "struct-field-second", "struct-field-third",
     "let-call", "rebind", "tuple-elem", "struct-field", "struct-field-direct", "array-elem", "ref-content", "vec-elem", "returned-from-fn",
     "returned-from-closure", "argument", "if-result", "match-result", "generic-apply", "argument-twice", "tuple-direct", "stored-then-passed",
+    // the closure inside the value a function returns, at every depth of tuple nesting
+    "returned-in-tuple", "returned-in-nested-tuple", "returned-in-nested-tuple-second", "returned-in-deep-tuple", "returned-in-tuple-via-fn",
 ];
+
+fn returned(flow: &str) -> bool {
+    flow.starts_with("returned-in-") || flow == "returned-from-fn"
+}
 pub const VARIANTS: [&str; 4] = ["plain", "shadow-after", "mutate-ref-both", "call-twice"];
 
 fn fn_ty() -> Ty {
@@ -165,7 +171,7 @@ pub fn build(caps: &[&str], flow: &str, variant: &str, nesting: usize) -> Option
     let res = cx.n.fresh("res");
     let arg = |k: i128| T6::I32.probe(k);
     // flows that need the closure bound to `c` first
-    let needs_c = !matches!(flow, "returned-from-fn");
+    let needs_c = !returned(flow);
     if needs_c {
         b.push(let_(c, clo.clone()));
         b.push(st(println(s("created"))));
@@ -279,7 +285,7 @@ pub fn build(caps: &[&str], flow: &str, variant: &str, nesting: usize) -> Option
             b.push(let_(g, bi("vec_get", vec![bi("vec_push", vec![v(w), v(c)]), int(0)])));
             E::Call(Box::new(v(g)), vec![arg(7)])
         }
-        "returned-from-fn" => {
+        "returned-from-fn" | "returned-in-tuple" | "returned-in-nested-tuple" | "returned-in-nested-tuple-second" | "returned-in-deep-tuple" | "returned-in-tuple-via-fn" => {
             // only captures that live inside the maker make sense here: rebuild inside `mk`
             if caps.iter().any(|c| matches!(*c, "ref")) && variant == "mutate-ref-both" {
                 return None;
@@ -296,14 +302,45 @@ pub fn build(caps: &[&str], flow: &str, variant: &str, nesting: usize) -> Option
                 mk_params.push((hf2, fn_ty()));
                 mk_args.push(E::FnRef("twice".to_string(), vec![]));
             }
-            cx2.items.push(fn_def("mk", mk_params, Some(fn_ty()), block(pre2, Some(clo2))));
+            // the shape of what `mk` returns around the closure, and the path of projections to it
+            let pair = |a: Ty, b: Ty| Ty::Tuple(vec![a, b]);
+            let (ret_ty, wrap, path): (Ty, Box<dyn Fn(E) -> E>, Vec<usize>) = match flow {
+                "returned-in-tuple" | "returned-in-tuple-via-fn" => (pair(fn_ty(), Ty::i32()), Box::new(|c: E| E::Tuple(vec![c, int(1)])), vec![0]),
+                "returned-in-nested-tuple" => (pair(pair(fn_ty(), Ty::i32()), Ty::i32()), Box::new(|c: E| E::Tuple(vec![E::Tuple(vec![c, int(1)]), int(2)])), vec![0, 0]),
+                "returned-in-nested-tuple-second" => (pair(Ty::i32(), pair(Ty::i32(), fn_ty())), Box::new(|c: E| E::Tuple(vec![int(2), E::Tuple(vec![int(1), c])])), vec![1, 1]),
+                "returned-in-deep-tuple" => (
+                    pair(pair(pair(fn_ty(), Ty::i32()), Ty::i32()), Ty::i32()),
+                    Box::new(|c: E| E::Tuple(vec![E::Tuple(vec![E::Tuple(vec![c, int(1)]), int(2)]), int(3)])),
+                    vec![0, 0, 0],
+                ),
+                _ => (fn_ty(), Box::new(|c: E| c), vec![]),
+            };
+            cx2.items.push(fn_def("mk", mk_params.clone(), Some(ret_ty.clone()), block(pre2, Some(wrap(clo2)))));
+            // a second function that returns the first one's result inside another tuple
+            let (maker, ret_ty, path) = if flow == "returned-in-tuple-via-fn" {
+                let params2: Vec<(VarId, Ty)> = mk_params.iter().map(|(_, t)| (cx2.n.fresh("m"), t.clone())).collect();
+                let fwd: Vec<E> = params2.iter().map(|(id, _)| v(*id)).collect();
+                let outer_ty = pair(ret_ty.clone(), Ty::Str);
+                cx2.items.push(fn_def("mk_labelled", params2, Some(outer_ty.clone()), E::Tuple(vec![call("mk", fwd), s("label")])));
+                ("mk_labelled", outer_ty, vec![0, 0])
+            } else {
+                ("mk", ret_ty, path)
+            };
             cx.n = cx2.n;
             cx.items = cx2.items;
-            let g = cx.n.fresh("g");
             // the statements of `pre` already ran in this function too; harmless (they only print probes)
-            b.push(let_(g, call("mk", mk_args)));
+            let mut cur = cx.n.fresh("g");
+            b.push(let_t(cur, ret_ty.clone(), call(maker, mk_args)));
             b.push(st(println(s("created"))));
-            E::Call(Box::new(v(g)), vec![arg(7)])
+            let mut cur_ty = ret_ty;
+            for i in path {
+                let next = cx.n.fresh("g");
+                let Ty::Tuple(parts) = cur_ty.clone() else { unreachable!() };
+                cur_ty = parts[i].clone();
+                b.push(let_t(next, cur_ty.clone(), E::Proj(Box::new(v(cur)), i)));
+                cur = next;
+            }
+            E::Call(Box::new(v(cur)), vec![arg(7)])
         }
         "returned-from-closure" => {
             let mk = cx.n.fresh("mk");
@@ -362,7 +399,7 @@ pub fn build(caps: &[&str], flow: &str, variant: &str, nesting: usize) -> Option
     b.push(let_(res, call_expr.clone()));
     b.push(st(T6::I32.show(v(res))));
     if variant == "call-twice" {
-        if matches!(flow, "returned-from-fn") {
+        if returned(flow) {
             return None;
         }
         let res2 = cx.n.fresh("res");
@@ -411,7 +448,7 @@ impl Family for Closures {
         &["C08", "C01", "C02", "C03", "C04"]
     }
     fn rule(&self) -> &'static str {
-        "capture sets (all singles over {none, fn param, let, pattern variable, Ref cell, another closure, top-level fn, string let, function-typed parameter called in callee position only, local alias of a top-level fn called in callee position only}; selected pairs in quick, all pairs in thorough) x 22 flows of the closure value from creation to call (let, rebind, tuple element, nested tuple literal / tuple of a tuple-typed variable / tuple of a call result, struct field in first / second / third position, array element, Ref content, Vec element, returned from fn, returned from closure, argument, argument called twice, branch result of if/match, generic apply, …) x variants {plain, captured name shadowed after creation, captured Ref mutated from both sides, called twice} x nesting depth 1 (thorough: 1-2). non-trivial = programs whose closure captures at least one variable; distinct = distinct source text"
+        "capture sets (all singles over {none, fn param, let, pattern variable, Ref cell, another closure, top-level fn, string let, function-typed parameter called in callee position only, local alias of a top-level fn called in callee position only}; selected pairs in quick, all pairs in thorough) x 27 flows of the closure value from creation to call (returned by a function directly, in a tuple, in a tuple nested two and three deep and in either position, in a tuple that a second function wraps in another; let, rebind, tuple element, nested tuple literal / tuple of a tuple-typed variable / tuple of a call result, struct field in first / second / third position, array element, Ref content, Vec element, returned from fn, returned from closure, argument, argument called twice, branch result of if/match, generic apply, …) x variants {plain, captured name shadowed after creation, captured Ref mutated from both sides, called twice} x nesting depth 1 (thorough: 1-2). non-trivial = programs whose closure captures at least one variable; distinct = distinct source text"
     }
     fn cases(&self, tier: Tier) -> Box<dyn Iterator<Item = Value> + '_> {
         let mut v = Vec::new();
